@@ -2032,7 +2032,7 @@ seq_t dtw_warping_paths_affinity_ndim(seq_t *wps,
         wpsi = 1; // index for min_ci
         if (only_triu) {
             if (ci < ri) {
-                for (; ci<ri; ci++) {
+                for (; ci<ri && ci<max_ci; ci++) {
                     wps[ri_width + wpsi] = -INFINITY;
                     wpsi++;
                 }
@@ -2079,7 +2079,7 @@ seq_t dtw_warping_paths_affinity_ndim(seq_t *wps,
         ci = min_ci;
         if (only_triu) {
             if (ci < ri) {
-                for (; ci<ri; ci++) {
+                for (; ci<ri && ci<max_ci; ci++) {
                     wps[ri_width + wpsi] = -INFINITY;
                     wpsi++;
                 }
@@ -2125,7 +2125,7 @@ seq_t dtw_warping_paths_affinity_ndim(seq_t *wps,
         wpsi = 1;
         if (only_triu) {
             if (ci < ri) {
-                for (; ci<ri; ci++) {
+                for (; ci<ri && ci<max_ci; ci++) {
                     wps[ri_width + wpsi] = -INFINITY;
                     wpsi++;
                 }
@@ -2181,7 +2181,7 @@ seq_t dtw_warping_paths_affinity_ndim(seq_t *wps,
         }
         if (only_triu) {
             if (ci < ri) {
-                for (; ci<ri; ci++) {
+                for (; ci<ri && ci<l2; ci++) {
                     wps[ri_width + wpsi] = -INFINITY;
                     wpsi++;
                 }
@@ -2366,7 +2366,7 @@ seq_t dtw_warping_paths_affinity_ndim_euclidean(seq_t *wps,
         wpsi = 1; // index for min_ci
         if (only_triu) {
             if (ci < ri) {
-                for (; ci<ri; ci++) {
+                for (; ci<ri && ci<max_ci; ci++) {
                     wps[ri_width + wpsi] = -INFINITY;
                     wpsi++;
                 }
@@ -2414,7 +2414,7 @@ seq_t dtw_warping_paths_affinity_ndim_euclidean(seq_t *wps,
         ci = min_ci;
         if (only_triu) {
             if (ci < ri) {
-                for (; ci<ri; ci++) {
+                for (; ci<ri && ci<max_ci; ci++) {
                     wps[ri_width + wpsi] = -INFINITY;
                     wpsi++;
                 }
@@ -2461,7 +2461,7 @@ seq_t dtw_warping_paths_affinity_ndim_euclidean(seq_t *wps,
         wpsi = 1;
         if (only_triu) {
             if (ci < ri) {
-                for (; ci<ri; ci++) {
+                for (; ci<ri && ci<max_ci; ci++) {
                     wps[ri_width + wpsi] = -INFINITY;
                     wpsi++;
                 }
@@ -2518,7 +2518,7 @@ seq_t dtw_warping_paths_affinity_ndim_euclidean(seq_t *wps,
         }
         if (only_triu) {
             if (ci < ri) {
-                for (; ci<ri; ci++) {
+                for (; ci<ri && ci<l2; ci++) {
                     wps[ri_width + wpsi] = -INFINITY;
                     wpsi++;
                 }
